@@ -157,8 +157,11 @@ def _mk(seed, locale, lang, normalize, skipdef, key, name, variant):
 def _walk(ctx):
     def cases(shard, nshards):
         locs = data.all_locales()
-        for i, (locale, lang) in enumerate(locs):
-            if i % nshards != shard:
+        # a language and its regional locales are walked in the same worker process (they share per-language caches),
+        # the base language first for half of the languages and last for the other half
+        order = data.language_order()
+        for i, (locale, lang) in enumerate(_grouped_locales(ctx.seed)):
+            if order.index(lang) % nshards != shard:
                 continue
             regional = locale != lang
             if ctx.quick and regional and derive_seed(ctx.seed, "pick", locale) % 5 != 0:
@@ -193,6 +196,18 @@ def sampled(draw):
     return {"locale": locale, "lang": lang, "norm": normalize, "skipdef": skipdef, "key": key, "name": name,
             "variant": draw(st.sampled_from(["asis", "lower"])), "year": y, "day": draw(st.integers(1, 28)),
             "ref": [y, m, draw(st.integers(8, 24)), draw(st.integers(0, 23)), draw(st.integers(0, 59)), 0, 0]}
+
+
+def _grouped_locales(seed):
+    out = []
+    lld = data.language_locale_dict()
+    for lang in data.language_order():
+        regional = [(loc, lang) for loc in lld.get(lang, [])]
+        if derive_seed(seed, "base-first", lang) % 2:
+            out.extend([(lang, lang)] + regional)
+        else:
+            out.extend(regional + [(lang, lang)])
+    return out
 
 
 def stages(ctx):
